@@ -28,6 +28,9 @@ type ScheduleSpec struct {
 	Rejoin       bool // a node that left joins again
 	FastSyncJoiners bool
 	CallbackTxProb float64 // application submits follow-up txs from inside the commit callback
+	KeepSilent bool // the silent minority stays silent (dead) during the fair suffix
+	DupProb    float64 // probability that a submission repeats the bytes of an earlier one
+	EmptyProb  float64 // probability that a submission is the empty transaction
 }
 
 type shapeState struct {
@@ -221,7 +224,16 @@ func (nw *Network) RunSchedule(sp ScheduleSpec) {
 					if sp.TxKinds > 0 {
 						kind = rng.Intn(sp.TxKinds)
 					}
-					nw.Submit(n, nw.NewTx(n.Idx, kind))
+					switch {
+					case sp.DupProb > 0 && len(nw.SubmitOrder) > 0 && rng.Float64() < sp.DupProb:
+						nw.Submit(n, nw.SubmitOrder[rng.Intn(len(nw.SubmitOrder))].Bytes)
+						nw.Res.count("submit_duplicate_content", 1)
+					case sp.EmptyProb > 0 && rng.Float64() < sp.EmptyProb:
+						nw.Submit(n, []byte{})
+						nw.Res.count("submit_empty", 1)
+					default:
+						nw.Submit(n, nw.NewTx(n.Idx, kind))
+					}
 				}
 			}
 		}
@@ -311,8 +323,12 @@ func (nw *Network) RunSchedule(sp ScheduleSpec) {
 		}
 		nw.retireLeavers()
 	}
-	// end of shape: everybody back
+	// end of shape: everybody back (unless the minority is dead for good)
 	for _, n := range nw.Nodes {
+		if sp.KeepSilent && ss.silentSet != nil && ss.silentSet[n.Idx] && ss.silentUntil > sp.Steps {
+			n.Silent = true
+			continue
+		}
 		n.Silent = false
 	}
 	nw.Partition = nil
@@ -345,7 +361,7 @@ func (nw *Network) installCallbackSubmitter(n *SimNode, prob float64) {
 			tx := nw.NewTx(node.Idx, 0)
 			cp := append([]byte{}, tx...)
 			key := string(tx)
-			nw.Submitted[key] = &SubmittedTx{Bytes: cp, Node: node.Idx, Step: nw.Step, Count: 1}
+			nw.Submitted[key] = &SubmittedTx{Bytes: cp, Node: node.Idx, Step: nw.Step, Count: 1, Inc: node.Incarnation}
 			nw.SubmitOrder = append(nw.SubmitOrder, nw.Submitted[key])
 			nw.Rec.noteSubmission(node, cp)
 			// the commit callback runs inside the node's own lock hold
